@@ -223,6 +223,14 @@ func (h *Hub) connectFoundService(remoteService *api.ServiceDetails, host, port,
 
 	h.registerConnection(shipConnection)
 
+	// establishing the connection took some time, the pairing may have been removed
+	// or the hub may have been shut down in the meantime
+	pairingState := h.ServiceForSKI(remoteService.SKI()).ConnectionStateDetail().State()
+	if h.checkIsShutdown() ||
+		(!h.IsRemoteServiceForSKIPaired(remoteService.SKI()) && pairingState != api.ConnectionStateQueued) {
+		shipConnection.CloseConnection(false, 0, "")
+	}
+
 	return nil
 }
 
